@@ -15,13 +15,17 @@ Definition C19_full_statement : Prop :=
   (* successive where()/having() calls = one call with their conjunction:
      the same tree from an empty slot, the same text from a filled slot *)
   /\ (forall cs, fold_left add_filter cs None = add_filter None (call_all cs))
-  /\ (forall cs a sub, is_empty a = false ->
-        option_map (rc sub) (fold_left add_filter cs (Some a)) =
-        option_map (rc sub) (add_filter (Some a) (call_all cs)))
+  /\ (forall wns cs a sub, is_empty a = false ->
+        option_map (rc wns sub) (fold_left add_filter cs (Some a)) =
+        option_map (rc wns sub) (add_filter (Some a) (call_all cs)))
+  (* ... and the same with_namespace decision: the sticky _foreign_table flag after several where() calls is the flag
+     after one call with their conjunction (so table qualification does not depend on how the filter was split) *)
+  /\ (forall cs f, snd (fold_left add_where cs (None, f)) = snd (add_where (None, f) (call_all cs)))
+  /\ (forall cs st, fst (fold_left add_where cs st) = fold_left add_filter cs (fst st))
   (* no dangling WHERE/HAVING: only empties => no filter at all; otherwise the statement renders *)
   /\ (forall cs w, forallb is_empty cs = true -> fold_left add_filter cs w = w)
-  /\ (forall ws hs, forallb wf ws = true -> forallb wf hs = true ->
-        exists s, render_stmt (fold_left add_filter ws None) (fold_left add_filter hs None) = Some s).
+  /\ (forall wns head ws hs, forallb wf ws = true -> forallb wf hs = true ->
+        exists s, render_stmt_h wns head (fold_left add_filter ws None) (fold_left add_filter hs None) = Some s).
 
 Theorem C19_holds : C19_full_statement.
 Proof.
@@ -30,8 +34,10 @@ Proof.
   split; [reflexivity|]. split; [reflexivity|].
   split; [exact call_all_chain|]. split; [exact call_any_chain|].
   split; [exact add_filter_empties|]. split; [exact where_calls_from_none|].
-  split; [exact where_calls_render|]. split; [exact all_empty_no_filter|].
-  intros ws hs Hw Hh. apply stmt_renders; apply fold_add_filter_ok; auto.
+  split; [intros wns; exact (where_calls_render wns)|].
+  split; [exact where_flag|]. split; [intros cs st; rewrite add_where_fold; reflexivity|].
+  split; [exact all_empty_no_filter|].
+  intros wns head ws hs Hw Hh. apply stmt_renders; apply fold_add_filter_ok; auto.
 Qed.
 Print Assumptions C19_holds.
 
@@ -44,7 +50,11 @@ Print Assumptions C19_all_any_wf.
 Example C19_example :
   let a := Atom "a=1" in let b := Atom "b=2" in let c := Atom "c=3" in
   call_all [Empty; a; Empty; call_any [b; Empty; c]; Empty] = Cplx BAnd a (Cplx BOr b c)
-  /\ render_stmt (fold_left add_filter [Empty; a; call_any [b; c]] None) None
+  /\ render_stmt false (fold_left add_filter [Empty; a; call_any [b; c]] None) None
      = Some "SELECT * FROM ""t"" WHERE a=1 AND (b=2 OR c=3)"
-  /\ render_stmt (fold_left add_filter [Empty; Empty] None) None = Some "SELECT * FROM ""t""".
+  /\ render_stmt false (fold_left add_filter [Empty; Empty] None) None = Some "SELECT * FROM ""t"""
+  /\ (let o := AtomT "x=y" "t.x=o.y" true in let l := AtomT "z>0" "t.z>0" false in
+      (* a foreign reference in the FIRST where() keeps the whole statement qualified after a local second call *)
+      let st := fold_left add_where [o; Empty; l] (None, false) in
+      render_stmt (snd st) (fst st) None = Some "SELECT * FROM ""t"" WHERE t.x=o.y AND t.z>0").
 Proof. vm_compute. repeat split. Qed.
